@@ -42,9 +42,13 @@ pub fn gen_flow(
             }
             let raises = raises.into_iter().map(Result::unwrap).collect();
 
+            // The arm classes protect the guarded expression only: afterwards (and for the arms
+            // themselves) the set from before the handle is put back.
             let raises_before = env.raises_caught.clone();
-            let outer_env = generate(expr_or_stmt, &env.raises_caught(&raises), ctx, constr)?
-                .raises_caught(&raises_before);
+            let outer_env = Environment {
+                raises_caught: raises_before,
+                ..generate(expr_or_stmt, &env.raises_caught(&raises), ctx, constr)?
+            };
 
             constrain_cases(ast, &None, cases, &outer_env, ctx, constr)
         }
